@@ -222,8 +222,9 @@ class SStr(ModelValue):
 
     def m_find(self, it, ch):
         """only the -1 / not -1 distinction is modelled: returns -1 or a symbolic non-negative position token"""
-        if not (isinstance(ch, str) and len(ch) == 1):
-            raise OutsideSubset("find of a multi-character string")
+        if isinstance(ch, SStr) or (isinstance(ch, str) and len(ch) != 1):
+            from .replace import occurs
+            return FoundIndex() if occurs(it, self, ch) else -1
         if any(self.must_contain(ch, s) for s in self.segs):
             return FoundIndex()
         if not any(self.may_contain(ch, s) for s in self.segs):
@@ -495,6 +496,15 @@ def _cancel_compare(A, B):
         return False           # every item denotes a non-empty string
     if _heads_differ(a[0], b[0]):
         return False
+    # two atoms declared different, starting at the same position and followed by the same delimiter (or the end)
+    x, y = a[0], b[0]
+    if x[0] == 'a' and y[0] == 'a' and (y[1].name in getattr(x[1], 'differs_from', ()) or
+                                        x[1].name in getattr(y[1], 'differs_from', ())):
+        nx = a[1] if len(a) > 1 else None
+        ny = b[1] if len(b) > 1 else None
+        if (nx is None and ny is None) or (nx and ny and nx[0] == 'c' and ny[0] == 'c' and nx[1] == ny[1]
+                                           and nx[1] in x[1].excludes and nx[1] in y[1].excludes):
+            return False
     return None
 
 
